@@ -112,13 +112,13 @@ theorem build_kinded_eq (ms : Members) (nul : Bool) (d : DM) (hd : d ≠ .null) 
         simp only [ite_self, List.isEmpty_cons, Bool.false_eq_true]
         rw [Outcome.map_map]; rfl
   | map es =>
-    rw [build]
+    rw [build_map_ideal]
     simp only [resolveKinded, resolveMembers_find, DM.kind]
     cases ms.toList.find? (fun m => m.kind == Kind.map) with
     | none => rfl
     | some m =>
       simp only []
-      rw [build]
+      rw [build_map_ideal]
       cases resolveKinded Engine.ideal false .map m.ty with
       | reject => rfl
       | panic => rfl
